@@ -152,7 +152,7 @@ func checkC03(c *Ctx) {
 		}
 		c.R.Sample(map[string]interface{}{"program": f.name, "X3": sym.PolyOf(got[0]).String(), "reference": "RCB15 closed form, a=0, b3=21"})
 	}
-	c.R.Floor("C03-1", 11)
+	c.R.Floor("C03-1", 22)
 	// perturbed-oracle control: a sign flipped in the reference must be noticed
 	if got, ok := results["addComplete"]; ok && got[0] != nil {
 		wx, _, _ := rcbAdd(X("p"), Y("p"), Z("p"), X("q"), Y("q"), Z("q"), fpConst(-21))
@@ -160,6 +160,14 @@ func checkC03(c *Ctx) {
 	}
 	// the doubling reference is tied to the addition reference: dbl(P) ~ add(P,P) modulo the curve equation
 	c03DoubleVsAdd(c, X("p"), Y("p"), Z("p"), b3ref)
+	// ... and both are tied to the chord-and-tangent law of y^2 = x^3 + 7 (the oracle is not taken on trust)
+	c03GroupLaw(c, b3ref, false)
+	pert := c03GroupLaw(c, fpConst(20), true)
+	fired := true
+	for _, k := range []string{"chord-x", "chord-y", "tangent-x", "tangent-y", "closure-add", "closure-double"} {
+		fired = fired && !pert[k]
+	}
+	c.R.ControlResult("C03-1", "perturbed-group-law", "each of the six chord / tangent / closure identities must fail for the closed form with b3 = 20", fired)
 
 	// C03-2: alias safety of the three internal routines
 	aliasPatterns := map[string][][]int{ // each pattern: parameter index -> class id
@@ -208,7 +216,7 @@ func checkC03(c *Ctx) {
 	c06Encoders(c, prog, pl)
 
 	c.R.Explanation = "Translation validation of the three projective formulas (addComplete, addMixed, doubleComplete): the abstract interpreter evaluates each routine on symbolic coordinates over F_p (field.Element operations replaced by their ring specification, which C01 justifies) and the resulting output polynomials are compared, as normal forms, with the Renes-Costello-Batina closed forms for a=0, b3=21; the doubling reference is tied to the addition reference modulo the curve equation. Further rules: alias patterns of receiver/operands give the same normal forms; the exported operations reduce to these formulas on the right operands and propagate the validity flag; Equal is the two cross-product tests; every coordinate that leaves the package is read from a rescale() result and rescale is (X/Z, Y/Z, 1) or (0,1,0)."
-	c.R.Assumptions = []string{"C01: field.Element operations are exact ring operations mod p (Invert(0)=0)", "RCB15 completeness theorem: the closed forms are the group law for every pair of points on a prime-order curve", "go/ssa construction is faithful"}
+	c.R.Assumptions = []string{"C01: field.Element operations are exact ring operations mod p (Invert(0)=0)", "RCB15, non-degeneracy part only: the closed forms have Z3 != 0 for Q != -P (and Y3 != 0 for Q = -P) on a curve of odd order; agreement with the chord-and-tangent law, closure, inverse and neutral element are decided (reference/group-law)", "go/ssa construction is faithful"}
 	c.R.Extra["programs"] = 3
 	c.R.Extra["disagreements_checked"] = len(c.R.Obligations)
 }
@@ -554,4 +562,152 @@ func isNamedPtr(t types.Type, qualified string) bool {
 	}
 	n, ok := p.Elem().(*types.Named)
 	return ok && n.Obj().Pkg() != nil && n.Obj().Pkg().Path()+"."+n.Obj().Name() == qualified
+}
+
+// reduceAffine rewrites y^2 -> x^3 + b for each (x, y) pair until every y has degree < 2.  {y_i^2 - x_i^3 - b} is a Groebner
+// basis (the leading monomials y_i^2 are pairwise coprime), so the result is the unique normal form modulo the ideal of
+// "both points are on the curve": a polynomial is in that ideal exactly when its normal form is zero.
+func reduceAffine(p *sym.Poly, pairs [][2]*sym.Term, b int64) *sym.Poly {
+	cur := sym.FromPoly(p)
+	for iter := 0; iter < 40; iter++ {
+		pl := sym.PolyOf(cur)
+		changed := false
+		var sum *sym.Term = fpConst(0)
+		for _, t := range pl.SortedTerms() {
+			mono := sym.Const(sym.Fp, t.Coef)
+			for _, a := range t.Atoms {
+				e := new(big.Int).Set(a.E)
+				done := false
+				for _, pr := range pairs {
+					if a.A == pr[1] && e.Cmp(big.NewInt(2)) >= 0 {
+						changed, done = true, true
+						q := new(big.Int).Div(e, big.NewInt(2))
+						repl := add(mul(pr[0], pr[0], pr[0]), fpConst(b))
+						for i := int64(0); i < q.Int64(); i++ {
+							mono = sym.Mul(mono, repl)
+						}
+						if e.Bit(0) == 1 {
+							mono = sym.Mul(mono, pr[1])
+						}
+					}
+				}
+				if !done {
+					mono = sym.Mul(mono, sym.Pow(a.A, e))
+				}
+			}
+			sum = sym.Add(sum, mono)
+		}
+		cur = sum
+		if !changed {
+			break
+		}
+	}
+	return sym.PolyOf(cur)
+}
+
+// bidegree returns, per monomial, the total degree in the first and in the second variable group; ok is false when a
+// monomial mentions another atom or the degrees are not the same for every monomial.
+func bihomogeneous(t *sym.Term, g1, g2 []*sym.Term) (d1, d2 int64, ok bool) {
+	first := true
+	for _, m := range sym.PolyOf(t).SortedTerms() {
+		var a, b int64
+		for _, at := range m.Atoms {
+			switch {
+			case containsTerm(g1, at.A):
+				a += at.E.Int64()
+			case containsTerm(g2, at.A):
+				b += at.E.Int64()
+			default:
+				return 0, 0, false
+			}
+		}
+		if first {
+			d1, d2, first = a, b, false
+		} else if a != d1 || b != d2 {
+			return 0, 0, false
+		}
+	}
+	return d1, d2, !first
+}
+
+func containsTerm(l []*sym.Term, t *sym.Term) bool {
+	for _, x := range l {
+		if x == t {
+			return true
+		}
+	}
+	return false
+}
+
+// c03GroupLaw ties the reference closed forms (the oracle of rule C03-1) to the textbook chord-and-tangent law of
+// y^2 = x^3 + 7 by exact polynomial identities modulo the curve equations of the operands.  What is decided: the closed
+// forms are bihomogeneous (so identities shown for Z1 = Z2 = 1 hold for every representative with Z != 0); on affine
+// operands the result, whenever Z3 != 0, is the chord point (generic case) / the tangent point (doubling); the result
+// always satisfies the projective curve equation; P + (-P) has X3 = Z3 = 0; the identity (0:1:0) is neutral on either
+// side and doubles to itself.  What stays trusted from Renes-Costello-Batina: Z3 != 0 when Q != -P (and Y3 != 0 when
+// Q = -P), i.e. the absence of exceptional pairs on a curve of odd order.
+func c03GroupLaw(c *Ctx, b3 *sym.Term, perturb bool) map[string]bool {
+	x1, y1, x2, y2 := fpSym("gl.x1"), fpSym("gl.y1"), fpSym("gl.x2"), fpSym("gl.y2")
+	z1, z2 := fpSym("gl.z1"), fpSym("gl.z2")
+	one := fpConst(1)
+	pairs := [][2]*sym.Term{{x1, y1}, {x2, y2}}
+	zero := func(t *sym.Term) bool { return len(reduceAffine(sym.PolyOf(t), pairs, 7).Terms) == 0 }
+	all := map[string]bool{}
+	decide := func(ok bool, key, what string) {
+		all[key] = ok
+		if perturb {
+			return
+		}
+		c.R.Decide(ok, "C03-1", "reference/group-law/"+key, "", what, "the closed form used as the oracle does NOT satisfy: "+what)
+	}
+	// 1. bihomogeneity
+	gx, gy, gz := rcbAdd(x1, y1, z1, x2, y2, z2, b3)
+	okh := true
+	for _, t := range []*sym.Term{gx, gy, gz} {
+		d1, d2, ok := bihomogeneous(t, []*sym.Term{x1, y1, z1}, []*sym.Term{x2, y2, z2})
+		okh = okh && ok && d1 == 2 && d2 == 2
+	}
+	decide(okh, "add-bihomogeneous", "each output of the addition form is bihomogeneous of degree (2,2) in (X1,Y1,Z1), (X2,Y2,Z2)")
+	dx, dy, dz := rcbDouble(x1, y1, z1, b3)
+	okh = true
+	for _, t := range []*sym.Term{dx, dy, dz} {
+		d1, _, ok := bihomogeneous(t, []*sym.Term{x1, y1, z1}, nil)
+		okh = okh && ok && d1 == 4
+	}
+	decide(okh, "double-homogeneous", "each output of the doubling form is homogeneous of degree 4")
+	// 2. chord law on affine operands
+	ax, ay, az := rcbAdd(x1, y1, one, x2, y2, one, b3)
+	D := sym.Sub(x2, x1)
+	N := sym.Sub(y2, y1)
+	D2 := mul(D, D)
+	xs := sym.Sub(mul(N, N), mul(add(x1, x2), D2))                  // x3 * D^2
+	ys := sym.Sub(mul(N, sym.Sub(mul(x1, D2), xs)), mul(y1, D2, D)) // y3 * D^3
+	decide(zero(sym.Sub(mul(ax, D2), mul(az, xs))), "chord-x", "X3*(x2-x1)^2 = Z3*((y2-y1)^2 - (x1+x2)(x2-x1)^2) modulo the curve equations")
+	decide(zero(sym.Sub(mul(ay, D2, D), mul(az, ys))), "chord-y", "Y3*(x2-x1)^3 = Z3*(lambda-numerator form of y3) modulo the curve equations")
+	// 3. tangent law
+	tx, ty, tz := rcbDouble(x1, y1, one, b3)
+	Dt := mul(fpConst(2), y1)
+	Nt := mul(fpConst(3), x1, x1)
+	Dt2 := mul(Dt, Dt)
+	xt := sym.Sub(mul(Nt, Nt), mul(fpConst(2), x1, Dt2))
+	yt := sym.Sub(mul(Nt, sym.Sub(mul(x1, Dt2), xt)), mul(y1, Dt2, Dt))
+	decide(zero(sym.Sub(mul(tx, Dt2), mul(tz, xt))), "tangent-x", "doubling: X3*(2y)^2 = Z3*((3x^2)^2 - 2x(2y)^2) modulo the curve equation")
+	decide(zero(sym.Sub(mul(ty, Dt2, Dt), mul(tz, yt))), "tangent-y", "doubling: Y3*(2y)^3 = Z3*(tangent form of y3) modulo the curve equation")
+	// 4. closure: the result satisfies Y^2 Z = X^3 + 7 Z^3
+	decide(zero(sym.Sub(mul(ay, ay, az), add(mul(ax, ax, ax), mul(fpConst(7), az, az, az)))), "closure-add", "the sum of two curve points satisfies Y3^2 Z3 = X3^3 + 7 Z3^3")
+	decide(zero(sym.Sub(mul(ty, ty, tz), add(mul(tx, tx, tx), mul(fpConst(7), tz, tz, tz)))), "closure-double", "the double of a curve point satisfies Y3^2 Z3 = X3^3 + 7 Z3^3")
+	// 5. inverse: P + (-P) = (0 : * : 0)
+	ix, _, iz := rcbAdd(x1, y1, one, x1, sym.Sub(fpConst(0), y1), one, b3)
+	decide(zero(ix) && zero(iz), "inverse", "P + (-P) has X3 = 0 and Z3 = 0")
+	// 6. neutral element (no curve equation needed: plain polynomial identities up to the common factor)
+	nx, ny, nz := rcbAdd(fpConst(0), one, fpConst(0), x2, y2, z2, b3)
+	mx, my, mz := rcbAdd(x1, y1, z1, fpConst(0), one, fpConst(0), b3)
+	okn := sym.Equal(mul(nx, y2), mul(ny, x2)) && sym.Equal(mul(nz, y2), mul(ny, z2)) && sym.Equal(mul(nx, z2), mul(nz, x2)) &&
+		sym.Equal(mul(mx, y1), mul(my, x1)) && sym.Equal(mul(mz, y1), mul(my, z1)) && sym.Equal(mul(mx, z1), mul(mz, x1)) &&
+		sym.Equal(ny, mul(y2, y2)) && sym.Equal(my, mul(y1, y1))
+	decide(okn, "neutral", "(0:1:0) + Q = Y2*(X2:Y2:Z2) and P + (0:1:0) = Y1*(X1:Y1:Z1)")
+	ox, oy, oz := rcbDouble(fpConst(0), one, fpConst(0), b3)
+	okd := sym.Equal(ox, fpConst(0)) && sym.Equal(oz, fpConst(0)) && sym.Equal(oy, one)
+	decide(okd, "neutral-double", "2*(0:1:0) = (0:1:0)")
+	return all
 }
